@@ -121,6 +121,17 @@ func parserInputs(o *propOpts, each func(e *entry, s string, origin string)) {
 		}
 		each(entryByName("ParseExpr"), strings.Join(parts, " "), "exprsoup")
 	}
+	// trivia soups: operators, atoms and COMMENTS glued or separated at random (mostly invalid: they exercise what a Bad node
+	// records and prints when comments sit directly against tokens)
+	for i := 0; i < nexpr/2; i++ {
+		n := 2 + r.intn(7)
+		var sb strings.Builder
+		for j := 0; j < n; j++ {
+			sb.WriteString(triviaFrags[r.intn(len(triviaFrags))])
+			sb.WriteString([]string{"", "", " ", "\n"}[r.intn(4)])
+		}
+		each(entryByName([]string{"ParseExpr", "ParseQuery", "ParseStatement"}[i%3]), sb.String(), "triviasoup")
+	}
 }
 
 var exprFrags = []string{"a", "b.c", "1", "-1", "1.5", "'s'", "b'x'", "@p", "NULL", "TRUE", "+", "-", "~", "*", "/", "||", "<<", ">>", "&", "^", "|", "=", "!=", "<>", "<", "<=", ">", ">=",
@@ -150,6 +161,8 @@ var probes = []struct{ entry, text string }{
 	{"ParseStatement", "CALL p(1, TABLE t, MODEL m)"}, {"ParseStatements", "SELECT 1,; SELECT 2"}, {"ParseStatements", ";;SELECT 1;; SELECT 2;"},
 	{"ParseStatements", "SELECT 1; /*c*/"}, {"ParseStatements", "SELECT 1; \x00; SELECT 2"}, {"ParseStatement", "a/*c*/b +"}, {"ParseStatement", "@{a=1} CREATE TABLE t (a INT64) PRIMARY KEY (a)"},
 }
+
+var triviaFrags = []string{"-", "/", "*", "+", "a", "1", "(", ")", ",", "--c\n", "/*c*/", "//c\n", "#c\n", "/**/", "SELECT", "FROM", ".", "'s'", "<", ">", "[", "]"}
 
 var singleEdits = []string{"", "3", ",", "x", ")"}
 
